@@ -137,7 +137,9 @@ def _gen_h2(rng, n, tier):
         d = rng.choice([0.5, 1.0, 1.0 + 1e-3, 3.0]) * T
         client.append(["advance", d])
         t += d
-        kind = rng.choice(["stream", "stream", "ping", "settings", "two_streams"])
+        kind = rng.choice(["stream", "stream", "ping", "settings", "two_streams", "sn404"])
+        if kind == "sn404" and first == "h2c":
+            kind = "stream"
         if kind in ("stream", "two_streams"):
             for _ in range(2 if kind == "two_streams" else 1):
                 tag = n * 10 + sid
@@ -147,6 +149,13 @@ def _gen_h2(rng, n, tier):
                                                         (b":authority", b"h.example")], end_stream=True)])
                 marks.append({"kind": "stream", "t": t, "sid": sid, "delay": delay})
                 sid += 2
+        elif kind == "sn404":
+            # request for a host that is not in server_names: the server answers 404 by itself
+            config["server_names"] = ["h.example"]
+            client.append(["feed", fb.headers(sid, [(b":method", b"GET"), (b":scheme", b"http"), (b":path", b"/t%d" % (n * 10 + sid)),
+                                                    (b":authority", b"other.example")], end_stream=True)])
+            marks.append({"kind": "stream", "t": t, "sid": sid, "delay": 0, "error": True})
+            sid += 2
         elif kind == "ping":
             client.append(["feed", fb.ping(b"12345678")])
         else:
@@ -268,7 +277,7 @@ def check(case, obs, tally):
                     break
                 s = rx.streams.get(m["sid"])
                 end = s.end_t if s is not None and (s.ended or s.rst is not None) else None
-                busy.append((m["t"], end, m["t"] + m.get("delay", 0), "stream"))
+                busy.append((m["t"], end, m["t"] + m.get("delay", 0), "error" if m.get("error") else "stream"))
     # ---- idle periods = complement of busy intervals ---------------------------------------
     # sweep: count of open busy intervals over time
     points = []
@@ -359,6 +368,9 @@ def check(case, obs, tally):
 def _idle_what(tr, s, busy, proto):
     """Names the situation the idle period started from (mechanism part of the signature)."""
     if any(e is not None and abs(e - s) < EPS and k == "error" for (b, e, x, k) in busy):
+        return "after-server-error-response"
+    if proto == "h2" and any(e is not None and e <= s + EPS and k == "error" for (b, e, x, k) in busy):
+        # the refused stream is never removed from the connection's stream table, so the connection never counts as idle again
         return "after-server-error-response"
     for (b, e, x, k) in busy:
         if e is not None and abs(e - s) < EPS:
